@@ -224,3 +224,34 @@ pub fn parenthesize_invisible_groups(input: proc_macro2::TokenStream) -> proc_ma
     }
     ts.into_iter().collect()
 }
+
+/// Puts the lint attributes a derived impl needs after every `#[automatically_derived]` of `ts` (and in front of the
+/// anonymous constant that holds the `Eq` assertions): the item's own `#[allow(..)]` attributes (the generated code
+/// repeats the item's identifiers and types), and `#[allow(deprecated)]` (it mentions fields, variants and types the
+/// user may have marked `#[deprecated]`), as the standard derives do.
+pub fn with_lint_attrs(ts: proc_macro2::TokenStream, item_attrs: &[syn::Attribute]) -> proc_macro2::TokenStream {
+    use proc_macro2::{Delimiter, TokenTree};
+    use quote::quote;
+    let allows: Vec<_> = item_attrs
+        .iter()
+        .filter(|a| a.path().is_ident("allow"))
+        .collect();
+    let extra = quote!(#[allow(deprecated)] #(#allows)*);
+    let input: Vec<TokenTree> = ts.into_iter().collect();
+    let mut out = Vec::new();
+    for (i, t) in input.iter().enumerate() {
+        let is_marker = matches!(t, TokenTree::Group(g) if g.delimiter() == Delimiter::Bracket
+            && g.stream().to_string() == "automatically_derived")
+            && matches!(out.last(), Some(TokenTree::Punct(p)) if p.as_char() == '#');
+        let is_anonymous_const = matches!(t, TokenTree::Ident(c) if c == "const")
+            && matches!(input.get(i + 1), Some(TokenTree::Ident(u)) if u == "_");
+        if is_anonymous_const {
+            out.extend(extra.clone());
+        }
+        out.push(t.clone());
+        if is_marker {
+            out.extend(extra.clone());
+        }
+    }
+    out.into_iter().collect()
+}
